@@ -91,8 +91,10 @@ SetCmds(g) ==
 
 ResultCmds(g) ==
   IF "results" \notin Extras THEN {}
-  ELSE {TaskCmd("set", i, ABSENT, ABSENT, ABSENT, s, ABSENT, "sum" \o ToString(now), p, p \in {"r1.txt", "r2.txt"}, "", <<>>) :
-          i \in IdArgs(g), p \in {"r1.txt", "r2.txt", "missing.txt", "../out.txt", ".ergo/lock"},
+  ELSE {[TaskCmd("set", i, ABSENT, ABSENT, ABSENT, s, ABSENT, "sum" \o ToString(now), p, PathOK(p), "", <<>>)
+           EXCEPT !.rclean = PathClean(p)] :
+          i \in IdArgs(g),
+          p \in (IF "paths" \in Extras THEN DOMAIN ResultPaths ELSE {"r1.txt", "r2.txt", "missing.txt", "../out.txt", ".ergo/lock"}),
           s \in (IF StateArgs = {} THEN {ABSENT} ELSE {ABSENT, "done", "doing"})}
 
 ClaimCmds(g) ==
@@ -229,7 +231,7 @@ Obs == [pre     |-> View(Replay(last'.logpre)),
         logpre  |-> last'.logpre,
         logpost |-> log',
         gone    |-> last'.gonepre,
-        readable |-> TRUE, listshow |-> TRUE,
+        readable |-> TRUE, listshow |-> TRUE, faithful |-> TRUE,
         out     |-> [json |-> TRUE, values |-> 1, trailing |-> FALSE, stderr |-> last'.exit # 0,
                      idshape |-> TRUE]]
 
@@ -253,7 +255,8 @@ P_C12 == [][Holds(Props!C12_function_of_log) /\ Holds(Props!C12_reads_pure) /\ H
 P_C14 == [][Holds(Props!C14_ref) /\ Holds(Props!C14_epics_flat) /\ Holds(Props!C14_bad_refused)]_vars
 P_C15 == [][Holds(Props!C15_progress) /\ Holds(Props!C15_waits) /\ Holds(Props!C15_claim)]_vars
 P_C16 == [][Holds(Props!C16_one_value) /\ Holds(Props!C16_truth)]_vars
-P_C20 == [][Holds(Props!C20_only_grow) /\ Holds(Props!C20_confined) /\ Holds(Props!C20_live_only)]_vars
+P_C20 == [][Holds(Props!C20_only_grow) /\ Holds(Props!C20_confined) /\ Holds(Props!C20_live_only)
+            /\ Holds(Props!C20_faithful)]_vars
 
 \* design-level facts about the specification itself
 CodeReadyIsSpecReady ==            \* the code's predicates = the manual's words
